@@ -403,7 +403,7 @@ def export_ir(tmpl):
         if isinstance(b, ir.Entity):
             decl = b._template._info.ports
             toks.append("inst")
-            for name, sig in b._ports.items():
+            for name, sig in (b.get_ports() if hasattr(b, "get_ports") else b._ports).items():
                 if isinstance(sig, (Signal, Variable, Temporary)):
                     toks.append(("o" if decl[name].is_output() else "i") + str(rid(sig)))
     return " ".join(["check", "kinds", "".join(kinds) or "s"] + toks)
